@@ -3,7 +3,7 @@ library + reference, diffing, shrinking, evidence and violation reporting."""
 import os, sys, subprocess, json, hashlib, time, shutil, fcntl, re, glob, tempfile
 from concurrent.futures import ThreadPoolExecutor
 
-ROOT = "/verif"
+ROOT = os.path.dirname(os.path.dirname(os.path.abspath(__file__)))
 REPO = os.environ.get("VERIF_REPO", "/repo")
 CACHE = os.path.join(ROOT, ".cache")
 TARGET = os.path.join(CACHE, "target")
